@@ -1,20 +1,133 @@
+/-
+  C18 — the compiler registry and the pipeline context: each symbolic circuit is compiled at most
+  once per context, the symbolic ↔ compiled association is a bijection that can be queried both
+  ways, operands are compiled before their consumers, and `with ctx:` blocks restore the previously
+  active context.
+
+  Theorems are about the state machine `PState.step` / `PState.run` of
+  `CirkitModel.Model.Registry`, which mirrors `cirkit/pipeline.py` (`PipelineContext`: one compiler
+  per context object, `compile`, operator functions on compiled circuits, `__enter__`/`__exit__`
+  with a `ContextVar` token), `cirkit/backend/compiler.py` (`CompiledCircuitsMap`, a `BiMap`;
+  `compile` = look up or `compile_pipeline`), `compile_pipeline` of the torch backend, and
+  `pipeline_topological_ordering` (`bfs` + Kahn's algorithm of `cirkit/utils/algorithms.py`,
+  modelled literally by `bfsOrder`, `kahn`, `pipelineOrder` with the fuel the driver passes).
+
+  The invariant `PState.Inv` (defined in `CirkitModel.Proofs.Registry`) has the fields of the
+  specification — `left_nodup`, `right_nodup` (every bimap is functional in both directions),
+  `cc_lt` (compiled ids are `< nextCc`), `sc_lt` (registered symbolic ids exist), `dag` (operands
+  are earlier circuits), `log_iff`, `log_nodup` (the compile log lists exactly the registered
+  pairs, once each) — plus one added field `cc_disjoint` (no compiled id occurs in two contexts,
+  the second half of "globally fresh" that `cc_lt` alone does not state).  A second invariant
+  `PState.LogTopo` says that in the compile log every circuit is preceded by all of its operands
+  (same context).
+
+  * `inv_init`, `inv_step`, `inv_run`: the invariant holds initially, is preserved by every
+    operation (also the refused ones) and hence holds after every history.
+  * `bimap_bijection`: `compiledOf c sc = some cc ↔ symbolicOf c cc = some sc`.
+  * `compiled_ids_fresh`: a compiled id belongs to one context only.
+  * `compile_idempotent`: compiling the same circuit again returns the same compiled object and
+    changes nothing.
+  * `compile_registers` (FULL, no extra hypothesis): compiling an existing circuit in an existing
+    context succeeds and registers it.  Rests on `pipelineOrder_complete`: on a DAG,
+    `pipeline_topological_ordering([root])` with the model's fuel has no duplicates, lists the root
+    and is closed under operands, and lists operands before consumers (completeness of
+    `bfsOrder`/`kahn` is proved in general in `CirkitModel.Proofs.Registry`: `bfsOrder_spec`,
+    `kahn_spec`, `pipelineOrder_spec`).
+  * `operands_compiled_first` (FULL): after any history, every entry `(c, sc)` of the compile log
+    is preceded by `(c, o)` for every operand `o` of `sc`; `operands_compiled`: hence every operand
+    of a compiled circuit is compiled in that context.
+  * `compile_once`: the compile log of any history has no duplicates.
+  * `exit_restores`: leaving a block restores the context that was active before entering it,
+    whatever happened inside (the hypothesis `hbal` of the specification is not even needed: only
+    `enter c`/`exit c` touch the token of `c`, `PState.step_token`); `exit_restores_wb`: the same
+    for a body that is syntactically well bracketed (`PState.WB`), where in addition the block is
+    left with `c` active (`hbal` is derived); `wb_restores`: a well-bracketed history leaves the
+    active context and all tokens unchanged; `sequential_reuse`.
+  * `ccop_is_compile_of_symbolic`, `ccop_unknown_refused`: operator functions on compiled circuits
+    compile the symbolic operator result / refuse circuits unknown to the context.
+  Proofs: `CirkitModel.Proofs.Registry`.
+-/
 import CirkitModel.Proofs.Registry
 
 namespace Cirkit.C18
 open Cirkit PState
 
-theorem sequential_reuse (s : PState) (c : ℕ) (hc : c < s.ctxs.length)
-    (hfree : (s.ctx c).token = none) :
-    ((s.step (.enter c)).1.step (.exit c)).1.active = s.active ∧
-      (((s.step (.enter c)).1.step (.exit c)).1.ctx c).token = none := by
-  have ht := enter_token s c hc hfree
-  rw [step_exit_ok _ c s.active ht]
-  refine ⟨rfl, ?_⟩
-  show (((s.step (.enter c)).1.setCtx c _).ctx c).token = none
-  rw [ctx_setCtx_self]
-  rw [step_enter_ok s c hc hfree]
-  simpa [setCtx] using hc
+/-- 1. The invariant holds in the initial state. -/
+theorem inv_init : (({} : PState)).Inv := PState.inv_init
 
+/-- 2. Every operation preserves the invariant. -/
+theorem inv_step (s : PState) (op : POp') (h : s.Inv) : (s.step op).1.Inv := h.step op
+
+/-- 3. The invariant holds after every history. -/
+theorem inv_run (ops : List POp') : ((({} : PState)).run ops).1.Inv := PState.inv_init.run ops
+
+/-- 4. The association can be queried in both directions and the two directions agree. -/
+theorem bimap_bijection (s : PState) (h : s.Inv) (c sc cc : ℕ) :
+    s.compiledOf c sc = some cc ↔ s.symbolicOf c cc = some sc :=
+  h.bimap_bijection c sc cc
+
+/-- 4'. A compiled circuit is known to one context only. -/
+theorem compiled_ids_fresh (s : PState) (h : s.Inv) (c c' sc sc' cc : ℕ)
+    (h1 : s.symbolicOf c cc = some sc) (h2 : s.symbolicOf c' cc = some sc') : c = c' := by
+  by_contra hne
+  unfold symbolicOf at h1 h2
+  rw [find_snd_eq_some_iff _ (h.right_nodup c)] at h1
+  rw [find_snd_eq_some_iff _ (h.right_nodup c')] at h2
+  exact h.cc_disjoint c c' hne _ h1 _ h2 rfl
+
+/-- 5. Compiling the same symbolic circuit again returns the same compiled object and changes
+    nothing (holds in every state). -/
+theorem compile_idempotent (s : PState) (_h : s.Inv) (c sc : ℕ) :
+    let r := s.compile c sc
+    ∀ cc, r.2 = .cc cc → (r.1.compile c sc) = (r.1, .cc cc) := by
+  intro r cc hr
+  exact compile_idempotent' s c sc cc hr
+
+/-- `pipeline_topological_ordering([sc])` in a state satisfying the invariant: lists `sc`, has no
+    duplicates, only lists existing circuits, is closed under operands, and every circuit comes
+    after all of its operands. -/
+theorem pipelineOrder_complete (s : PState) (h : s.Inv) (sc : ℕ) (hsc : sc < s.operands.length) :
+    sc ∈ pipelineOrder s.operandsOf (s.operands.length + 1) sc ∧
+    (pipelineOrder s.operandsOf (s.operands.length + 1) sc).Nodup ∧
+    (∀ x ∈ pipelineOrder s.operandsOf (s.operands.length + 1) sc, x < s.operands.length) ∧
+    (∀ n ∈ pipelineOrder s.operandsOf (s.operands.length + 1) sc, ∀ o ∈ s.operandsOf n,
+      o ∈ pipelineOrder s.operandsOf (s.operands.length + 1) sc) ∧
+    (∀ l1 x l2, pipelineOrder s.operandsOf (s.operands.length + 1) sc = l1 ++ x :: l2 →
+      ∀ o ∈ s.operandsOf x, o ∈ l1) := by
+  obtain ⟨h1, h2, h3, h4, h5⟩ := pipelineOrder_spec s.operandsOf s.operands.length h.dag sc hsc
+  exact ⟨h1, h3, h4, h5, h2⟩
+
+/-- 6. Compiling an existing circuit in an existing context returns a compiled circuit, which is
+    then registered. -/
+theorem compile_registers (s : PState) (h : s.Inv) (c sc : ℕ) (hsc : sc < s.operands.length)
+    (hc : c < s.ctxs.length) :
+    ∃ cc, (s.compile c sc).2 = .cc cc ∧ (s.compile c sc).1.compiledOf c sc = some cc :=
+  h.compile_registers c sc hsc hc
+
+/-- 7. After any history, every entry `(c, sc)` of the compile log comes after the entries `(c, o)`
+    of all operands `o` of `sc`. -/
+theorem operands_compiled_first (ops : List POp') (l1 : List (ℕ × ℕ)) (c sc : ℕ)
+    (l2 : List (ℕ × ℕ))
+    (hlog : (({} : PState).run ops).1.compileLog = l1 ++ (c, sc) :: l2) :
+    ∀ o ∈ (({} : PState).run ops).1.operandsOf sc, (c, o) ∈ l1 :=
+  (PState.logTopo_init.run PState.inv_init ops) l1 c sc l2 hlog
+
+/-- 7'. After any history, every operand of a circuit compiled in a context is compiled in that
+    context. -/
+theorem operands_compiled (ops : List POp') (c sc : ℕ)
+    (hk : ((({} : PState).run ops).1.compiledOf c sc).isSome) :
+    ∀ o ∈ (({} : PState).run ops).1.operandsOf sc,
+      ((({} : PState).run ops).1.compiledOf c o).isSome :=
+  PState.operands_compiled (PState.inv_init.run ops) (PState.logTopo_init.run PState.inv_init ops)
+    c sc hk
+
+/-- 8. Each circuit is compiled at most once per context over the whole history. -/
+theorem compile_once (ops : List POp') : (({} : PState).run ops).1.compileLog.Nodup :=
+  (inv_run ops).log_nodup
+
+set_option linter.unusedVariables false in
+/-- 9. Whatever happens inside the block, leaving it restores the context that was active before
+    entering it. -/
 theorem exit_restores (s : PState) (c : ℕ) (body : List POp') (hc : c < s.ctxs.length)
     (hfree : (s.ctx c).token = none)
     (hbody : ∀ op ∈ body, op ≠ .enter c ∧ op ≠ .exit c)
@@ -24,6 +137,35 @@ theorem exit_restores (s : PState) (c : ℕ) (body : List POp') (hc : c < s.ctxs
     rw [run_token _ body c hbody, enter_token s c hc hfree]
   rw [step_exit_ok _ c s.active ht]
 
+/-- 9'. A syntactically well-bracketed history (`PState.WB busy`: blocks nest and never enter a
+    context of `busy` or one they are inside of) leaves the active context and every token
+    unchanged, if all contexts outside `busy` are free at the start. -/
+theorem wb_restores (busy : List ℕ) (ops : List POp') (hwb : WB busy ops) (s : PState)
+    (hfree : ∀ c, c ∉ busy → (s.ctx c).token = none) :
+    (s.run ops).1.active = s.active ∧ ∀ c, ((s.run ops).1.ctx c).token = (s.ctx c).token :=
+  hwb.run_restores s hfree
+
+/-- 9''. `exit_restores` with the balance hypothesis derived from syntactic well-bracketedness of
+    the body: at the end of the body `c` is active again, and leaving restores the previously
+    active context. -/
+theorem exit_restores_wb (s : PState) (c : ℕ) (body : List POp') (busy : List ℕ)
+    (hc : c < s.ctxs.length) (hfree : ∀ c', c' ∉ busy → (s.ctx c').token = none) (hcb : c ∉ busy)
+    (hwb : WB (c :: busy) body) :
+    ((s.step (.enter c)).1.run body).1.active = c ∧
+      (((s.step (.enter c)).1.run body).1.step (.exit c)).1.active = s.active :=
+  hwb.exit_restores s hc hfree hcb
+
+/-- 9'''. After `enter c; exit c` the context is free again and the active context is unchanged. -/
+theorem sequential_reuse (s : PState) (c : ℕ) (hc : c < s.ctxs.length)
+    (hfree : (s.ctx c).token = none) :
+    ((s.step (.enter c)).1.step (.exit c)).1.active = s.active ∧
+      (((s.step (.enter c)).1.step (.exit c)).1.ctx c).token = none := by
+  have ht := enter_token s c hc hfree
+  obtain ⟨h1, h2⟩ := exit_token _ c s.active ht
+  exact ⟨h2, h1⟩
+
+/-- 10. Operator functions applied to compiled circuits return the compilation of the symbolic
+    operator result. -/
 theorem ccop_is_compile_of_symbolic (s : PState) (c : ℕ) (ccs scs : List ℕ)
     (hc : c < s.ctxs.length) (hne : ccs ≠ [])
     (hk : ccs.mapM (s.symbolicOf c) = some scs) :
@@ -36,6 +178,7 @@ theorem ccop_is_compile_of_symbolic (s : PState) (c : ℕ) (ccs scs : List ℕ)
     · omega
     · exact hne h
 
+/-- 10'. … and refuse compiled circuits that are not known in the context. -/
 theorem ccop_unknown_refused (s : PState) (c : ℕ) (ccs : List ℕ)
     (hc : c < s.ctxs.length) (hne : ccs ≠ [])
     (hk : ccs.mapM (s.symbolicOf c) = none) :
@@ -47,6 +190,8 @@ theorem ccop_unknown_refused (s : PState) (c : ℕ) (ccs : List ℕ)
     · omega
     · exact hne h
 
+/-- Non-vacuity: a concrete history (two base circuits, their product, a new context, compile
+    inside a `with` block, query after the block). -/
 example :
     (({} : PState).run [.newCircuit, .newCircuit, .symOp [0, 1], .newCtx, .enter 1,
         .compile none 2, .exit 1, .getCompiled (some 1) 2]).2 =
@@ -58,5 +203,13 @@ example :
         .compile none 2, .exit 1, .getCompiled (some 1) 2]).1.compileLog =
       [(1, 0), (1, 1), (1, 2)] := by
   decide
+
+/-- … and this history is well bracketed. -/
+example : WB [] [.newCircuit, .newCircuit, .symOp [0, 1], .newCtx, .enter 1,
+    .compile none 2, .exit 1, .getCompiled (some 1) 2] := by
+  refine .op _ _ _ (by simp) (by simp) (.op _ _ _ (by simp) (by simp) (.op _ _ _ (by simp) (by simp)
+    (.op _ _ _ (by simp) (by simp) ?_)))
+  exact .block [] 1 [.compile none 2] [.getCompiled (some 1) 2] (by simp)
+    (.op _ _ _ (by simp) (by simp) (.nil _)) (.op _ _ _ (by simp) (by simp) (.nil _))
 
 end Cirkit.C18
